@@ -236,8 +236,53 @@ SEEDS = {
              "picked twice: hall-of-fame scores no longer match the stored circuits"),
  "S-C20-1": ("C20", "check_equivalent_unitaries derives the global phase from det(U1)/det(U2) ** (1/dim)", "a word whose product "
              "differs from its library representative by a phase with negative real part: simplify_local_clifford raises"),
+
+ # ---- round 5
+ "S-C01-5": ("C01", "CompilerBase keeps the register -> matrix-index function per TOTAL qubit count and reuses it between compile() calls",
+             "one compiler object compiling two circuits with the same number of qubits but another emitter / photon split: emitter gates land on the wrong qubit"),
+ "S-C03-5": ("C03", "emitter_sorted takes the emitter number of each relabelled graph as the maximal REAL (float) rank of the adjacency block across each cut",
+             "a graph (>= 6 vertices) with a cut block whose rank over the reals exceeds its GF(2) rank: wrong emitter number, wrong order"),
+ "S-C04-5": ("C04", "find_incompatible_edges follows the quantum wires only (classical wires filtered out of the ancestor / descendant search)",
+             "two operations ordered only through a shared classical register: an edge pair that would close a cycle is offered as a candidate position"),
+ "S-C05-5": ("C05", "Stabilizer.__eq__ short-cut: same generator matrix in the same order -> compare the whole phase vector (destabilizer signs included)",
+             "the same state given with equal stabilizer rows and signs but other destabilizer signs: reported unequal"),
+ "S-C06-5": ("C06", "the two-part noise of a two-qubit gate is applied by writing into the operation's own noise list (op.noise[1] = NoNoise(), restored afterwards from a local)",
+             "the same noisy circuit object compiled a second time (second backend, second run): the first compile left [NoNoise, target noise] in the operation - the control-qubit noise is gone; also caught by C13 FrameOK"),
+ "S-C07-5": ("C07", "partial_trace removes the positions in reversed(list(set)) order instead of sorted descending",
+             "nine or more qubits with at least two dropped positions one of which is >= 8 (the set no longer iterates in ascending order): wrong qubit removed or IndexError"),
+ "S-C08-5": ("C08", "graph -> density conversion builds the state as the Kronecker product of its connected components (in component order)",
+             "a disconnected graph whose components are not contiguous in node order (0-2, 1-3): qubits permuted"),
+ "S-C09-5": ("C09", "Graph.local_complementation adds missing neighbour edges to SELF instead of to the returned copy",
+             "local complementation at a vertex with two non-adjacent neighbours: result lacks the edge and the input graph gains it"),
+ "S-C11-5": ("C11", "CliffordTableau(StabilizerTableau) initialises its phase from the n-entry stabilizer phase BEFORE the conversion (falls back to zeros) and never takes the converted signs",
+             "a stabilizer tableau with a negative sign, or a Y-type all-positive set whose reduction introduces one: all signs positive, another state"),
+ "S-C12-5": ("C12", "OneQubitGateWrapper.unwrap() builds the noise-carrier Identity without reg_type (defaults to 'e')",
+             "a wrapper on a PHOTON register with a single (non-list) noise model, then unwrap_nodes(): an emitter operation sits on a photon wire"),
+ "S-C13-5": ("C13", "StabilizerTableau(array, phase) keeps the caller's arrays (np.array(..., dtype=int) / np.asarray) instead of copies",
+             "Infidelity.evaluate or solver construction on a stabilizer target with mixed signs: the target's phase is shared with a working tableau and changes"),
+ "S-C14-5": ("C14", "openQASM text of measure-CNOT-and-reset emits the reset only when the control is an emitter",
+             "a measure-and-reset whose control is a photon register: exported program lacks the reset"),
+ "S-C15-5": ("C15", "CircuitDAG.compare ged branch returns `not sim` for the edit-distance result", "two circuits more than the edit-distance bound apart (the search gives up and returns None): reported EQUAL by GED_full / GED_adaptive"),
+ "S-C16-5": ("C16", "_depth_first takes path_list=[] / orbit_list=[] as mutable default arguments", "depth_first_orbit called on several graphs in one process: paths of earlier graphs are replayed on the next one, orbit members repeat"),
+ "S-C17-5": ("C17", "trace_distance symmetrises the difference with .T (not conjugate transpose) before eigh", "density matrices with imaginary off-diagonal parts (Y eigenstates): the imaginary part cancels, distance too small"),
+ "S-C18-5": ("C18", "reset / effective emitter depth treat every ClassicalControlledPairOperationBase (classical CNOT / CZ, not only measure-and-reset) as a reset boundary",
+             "a feed-forward circuit with a classically controlled correction touching an emitter between two resets"),
+ "S-C19-5": ("C19", "HybridEvolutionarySolver starts a tenth of the population as `[(inf, ideal.copy())] * n` (ONE circuit object in n slots)",
+             "n_pop >= 20: the shared circuit is mutated once per slot and generation, earlier slots keep stale scores that enter the hall of fame"),
+ "S-C20-5": ("C20", "DensityMatrixCompiler caches the full-size matrix of parameter-free one-qubit gates under (class, reg_type, register, n_quantum)",
+             "one compiler object, two circuits with the same total size and another emitter / photon split: a cached emitter gate acts on the wrong position"),
 }
 STRENGTHENED = {
+ "S-C03-5": "emitter_sorted on pools of 6-vertex graphs most of which have a cut block with different real and GF(2) rank",
+ "S-C06-5": "every second noisy circuit is compiled by both backends as the SAME object (no copy in between)",
+ "S-C07-5": "9-12 qubit walks judged at group level (512-4096 elements) with partial traces dropping the last and 1-2 other positions",
+ "S-C12-5": "wrappers in edit histories carry one noise model (after / before gate) or a per-gate list half of the time",
+ "S-C13-5": "a second target per history: the signed state a photon-only Clifford circuit with Pauli gates compiles to; metric and solver construction against it",
+ "S-C15-5": "a pair of circuits fifteen gates apart compared by GED_full / GED_adaptive / direct in both orders",
+ "S-C16-5": "depth_first_orbit (called on every connected graph in the one process) held to distinctness",
+ "S-C18-5": "feed-forward circuits: classically controlled X / Z corrections touching emitters (measurement count not judged on them)",
+ "S-C19-5": "fourteen more runs with populations of 30-60 and halls of fame of 8-20",
+ "S-C20-5": "wrapper legs on 1e+2p / 2e+1p layouts alternating through the long-lived compilers; fresh-compiler counter per backend (was phase-locked with alternating backends)",
  "S-C06-1": "grid extended by the endpoint p = 1", "S-C02-4": "graph-form targets with a shuffled node insertion order (position view = the target)",
  "S-C12-4": "a copy of the circuit is set aside and looked at again after later edits of the original (CopyIndependent)",
  "S-C14-4": "the circuit is exported once BEFORE it is edited; edits include removals",
